@@ -1,9 +1,9 @@
 package main
 
 import (
-	"os"
 	"encoding/json"
 	"fmt"
+	"os"
 
 	"github.com/hashicorp/raft"
 )
@@ -86,11 +86,11 @@ func (h *faultHooks) Answer(node int, op string, mayFail bool) Fault {
 	}
 	return FaultNone
 }
-func (h *faultHooks) CrashNow(node int)                                                {}
-func (h *faultHooks) OnStoreLogs(node int, logs []*raft.Log)                            {}
-func (h *faultHooks) OnDeleteRange(node int, min, max uint64, removed []*raft.Log)      {}
-func (h *faultHooks) OnStableSet(node int, key string, val []byte)                      {}
-func (h *faultHooks) OnSnapshotDurable(node int, meta raft.SnapshotMeta, data []byte)   {}
+func (h *faultHooks) CrashNow(node int)                                               {}
+func (h *faultHooks) OnStoreLogs(node int, logs []*raft.Log)                          {}
+func (h *faultHooks) OnDeleteRange(node int, min, max uint64, removed []*raft.Log)    {}
+func (h *faultHooks) OnStableSet(node int, key string, val []byte)                    {}
+func (h *faultHooks) OnSnapshotDurable(node int, meta raft.SnapshotMeta, data []byte) {}
 
 func logOf(vs *VStore) map[uint64]uint64 {
 	m := map[uint64]uint64{}
